@@ -21,9 +21,10 @@ Definition E_PLACE : N := 101.         (* NoDebugInformation / PlaceNotFound *)
 Definition E_PROCESS_EXIT : N := 102.  (* Error::ProcessExit(0) of step.rs:250/416 *)
 Definition E_INJECTED : N := 103.      (* failure injected by the oracle of StepTemps *)
 Definition E_DERAILED : N := 104.      (* model CPU left the native trace / fetched a corrupt byte *)
+Definition E_EXIT : N := 105.          (* Error::ProcessExit(code) returned with no exit handling (tracer.rs:443 path) *)
 Definition E_DETACHED : N := 199.      (* op after detach: outside the model *)
 Definition SITE_NO_BRKPT : N := 1.     (* tracer.rs:420 debug_assert!(mb_hit_brkpt.is_some()) *)
-Definition SITE_TRACEE_GONE : N := 2.  (* tracer.rs:538 tracee_ensure_mut(pid).unwrap() after PTRACE_EVENT_EXIT *)
+Definition SITE_TRACEE_GONE : N := 2.  (* historical: tracee_ensure_mut(pid).unwrap() after PTRACE_EVENT_EXIT, repaired in /repo c0ceee6; no longer produced *)
 Definition SITE_IMPOSSIBLE : N := 99.  (* empty word list; never produced *)
 
 Definition INT3 : N := 204.            (* 0xCC *)
@@ -99,6 +100,7 @@ Inductive outcome :=
 | OAdded (num : N)
 | ORemoved (v : option (N * address))
 | OStop (s : stop)
+| OExit (code : Z)      (* the call returned Err(ProcessExit(code)) after the exit handling ran: on_exit(code) fired *)
 | OErr (c : N)
 | OPanic (site : N)
 | OFuel.
@@ -330,18 +332,20 @@ Fixpoint run_cpu (fuel : nat) (p : proc) : proc * cpu_ev :=
            end
   end.
 
-(* Tracer::single_step, tracer.rs:528: PTRACE_SINGLESTEP, repeated while pc == initial_pc.  When the
-   stepped instruction ends the process, the PTRACE_EVENT_EXIT handler removes the tracee and the
-   next loop iteration unwraps None (tracer.rs:538). *)
-Fixpoint single_step (fuel : nat) (init : N) (p : proc) : res proc :=
+(* Tracer::single_step, tracer.rs:530: PTRACE_SINGLESTEP, repeated while pc == initial_pc.  When the
+   stepped instruction ends the process the tracee is gone after PTRACE_EVENT_EXIT; the step lets the
+   rest run (resume) and returns Err(ProcessExit(code)) with the real status (tracer.rs:541-550).
+   That error is the [true] flag here (the process record is still needed by the callers); the code
+   it carries is [exit_code]. *)
+Fixpoint single_step (fuel : nat) (init : N) (p : proc) : res (proc * bool) :=
   match fuel with
   | O => OutOfFuel
   | S f => let x := cpu_step p in
            match snd x with
            | EvExec => if p_alive (fst x)
-                       then (if p_pc (fst x) =? init then single_step f init (fst x) else Ok (fst x))
-                       else Panic SITE_TRACEE_GONE
-           | EvTrap => Ok (fst x)
+                       then (if p_pc (fst x) =? init then single_step f init (fst x) else Ok (fst x, false))
+                       else Ok (fst x, true)
+           | EvTrap => Ok (fst x, false)
            | EvExit => Err ESRCH
            | EvDerail => Err E_DERAILED
            | EvFuel => OutOfFuel
@@ -350,18 +354,20 @@ Fixpoint single_step (fuel : nat) (init : N) (p : proc) : res proc :=
 
 Definition fuel0 : nat := S (length tr).
 
-(* the disable / single-step / enable core of step_over_breakpoint, step.rs:217-223 *)
-Definition step_over_core (p : proc) (b : bp) : res (proc * bp) :=
+(* the disable / single-step / enable core of step_over_breakpoint, step.rs:230-241; flag [true]:
+   the step ended the process (the breakpoint stays disabled, nothing is re-enabled) *)
+Definition step_over_core (p : proc) (b : bp) : res (proc * bp * bool) :=
   r1 <- bp_disable p b ;;
-  p2 <- single_step fuel0 (p_pc (fst r1)) (fst r1) ;;
-  bp_enable p2 (snd r1).
+  x <- single_step fuel0 (p_pc (fst r1)) (fst r1) ;;
+  if snd x then Ok (fst x, snd r1, true)
+  else r <- bp_enable (fst x) (snd r1) ;; Ok (fst r, snd r, false).
 
-(* step_over_breakpoint, step.rs:209 *)
-Definition step_over_breakpoint (bps : list bp) (p : proc) : res (list bp * proc) :=
+(* step_over_breakpoint, step.rs:222 *)
+Definition step_over_breakpoint (bps : list bp) (p : proc) : res (list bp * proc * bool) :=
   match find_bp (p_pc p) bps with
-  | Some b => if b_en b then r <- step_over_core p b ;; Ok (put_bp (snd r) bps, fst r)
-              else Ok (bps, p)
-  | None => Ok (bps, p)
+  | Some b => if b_en b then r <- step_over_core p b ;; Ok (put_bp (snd (fst r)) bps, fst (fst r), snd r)
+              else Ok (bps, p, false)
+  | None => Ok (bps, p, false)
   end.
 
 Definition is_temp (b : bp) : bool := bty_eqb (b_ty b) TTemp.
@@ -372,9 +378,23 @@ Definition with_rp (s : st) (r : reg) (p : proc) : st :=
 Definition with_bps (s : st) (bps : list bp) (p : proc) : st :=
   with_rp s (mk_reg bps (r_dis (s_reg s)) (r_next (s_reg s))) p.
 
+(* what a continue / step call hands back *)
+Inductive cres :=
+| CStop (x : stop)   (* Ok(StopReason): the hook of [x] fired *)
+| CExitErr           (* Err(ProcessExit(exit_code)) from a step over the process-ending instruction, after
+                        Debugee::single_step marked the debugee Exited and on_step_error (step.rs:186) ran
+                        disable_all_breakpoints and on_exit(exit_code) *)
+| CExitRaw.          (* Err(ProcessExit(exit_code)) out of the tracer's own step (tracer.rs:443): the process
+                        is gone but status, registry and hooks were not touched *)
+
+(* Debugee::single_step + on_step_error: the state after a step that ended the process *)
+Definition exit_by_step (s : st) (bps : list bp) (p : proc) : st :=
+  let y := disable_all (mk_reg bps (r_dis (s_reg s)) (r_next (s_reg s))) p in
+  mk_st (fst y) (snd y) Exited (s_detached s) (s_external s) FReaped.
+
 (* the loop of continue_execution (mod.rs:560-693) over Tracer::resume / apply_new_status
    (tracer.rs:114, :397-466) *)
-Fixpoint cont_loop (fuel : nat) (s : st) : res (st * stop) :=
+Fixpoint cont_loop (fuel : nat) (s : st) : res (st * cres) :=
   match fuel with
   | O => OutOfFuel
   | S f =>
@@ -384,7 +404,7 @@ Fixpoint cont_loop (fuel : nat) (s : st) : res (st * stop) :=
           (* WaitStatus::Exited -> DebugeeExit(code): status Exited, disable_all_breakpoints
              (every ptrace call fails with ESRCH, ignored), on_exit(code) *)
           let y := disable_all (s_reg s) (fst x) in
-          Ok (mk_st (fst y) (snd y) Exited (s_detached s) (s_external s) FReaped, StopExit exit_code)
+          Ok (mk_st (fst y) (snd y) Exited (s_detached s) (s_external s) FReaped, CStop (StopExit exit_code))
       | EvTrap =>
           let pc := p_pc (fst x) - 1 in                 (* tracer.rs:412 *)
           let p := set_pc (fst x) pc in
@@ -395,20 +415,27 @@ Fixpoint cont_loop (fuel : nat) (s : st) : res (st * stop) :=
               if has_tmp bps && negb (is_temp b) then
                 (* tracer.rs:432-449: a non-temporary breakpoint hit while temporaries exist is
                    stepped over silently on a clone of the breakpoint *)
-                p' <- (if b_en b then r <- step_over_core p b ;; Ok (fst r) else Ok p) ;;
-                cont_loop f (with_bps s bps p')
+                if b_en b then
+                  r <- step_over_core p b ;;
+                  if snd r
+                  then Ok (mk_st (s_reg s) (fst (fst r)) (s_status s) (s_detached s) (s_external s) FReaped, CExitRaw)
+                  else cont_loop f (with_bps s bps (fst (fst r)))
+                else cont_loop f (with_bps s bps p)
               else
                 match b_ty b with
                 | TEntry =>                             (* mod.rs:589-625 *)
                     let e := enable_all_from (r_dis (s_reg s)) bps p in
                     r1 <- add_and_enable (fst e) (snd e) (mk_bp rbrk 0 0 false TLinker) ;;
                     r2 <- step_over_breakpoint (fst r1) (snd r1) ;;
-                    cont_loop f (with_rp s (mk_reg (fst r2) [] (r_next (s_reg s))) (snd r2))
+                    let s1 := with_rp s (mk_reg (fst (fst r2)) [] (r_next (s_reg s))) (snd (fst r2)) in
+                    if snd r2 then Ok (exit_by_step s1 (fst (fst r2)) (snd (fst r2)), CExitErr)
+                    else cont_loop f s1
                 | TLinker =>                            (* mod.rs:626-631 *)
                     r2 <- step_over_breakpoint bps p ;;
-                    cont_loop f (with_bps s (fst r2) (snd r2))
-                | TUser => Ok (with_bps s bps p, StopBp pc (b_num b))    (* mod.rs:632-653 *)
-                | TTemp => Ok (with_bps s bps p, StopTemp pc)            (* mod.rs:657-659 *)
+                    if snd r2 then Ok (exit_by_step s (fst (fst r2)) (snd (fst r2)), CExitErr)
+                    else cont_loop f (with_bps s (fst (fst r2)) (snd (fst r2)))
+                | TUser => Ok (with_bps s bps p, CStop (StopBp pc (b_num b)))    (* mod.rs:632-653 *)
+                | TTemp => Ok (with_bps s bps p, CStop (StopTemp pc))            (* mod.rs:657-659 *)
                 end
           end
       | EvDerail => Err E_DERAILED
@@ -421,7 +448,7 @@ Definition loop_fuel : nat := S (S (length tr)).
 Definition fresh_proc : proc := mk_proc code true O (pc_at O) [].
 
 (* continue_execution, mod.rs:543 *)
-Definition continue_execution (s : st) : res (st * stop) :=
+Definition continue_execution (s : st) : res (st * cres) :=
   match s_status s with
   | Unload =>
       (* no breakpoint is active; PTRACE_EVENT_EXEC -> DebugeeStart -> enable_entry_breakpoint *)
@@ -429,12 +456,13 @@ Definition continue_execution (s : st) : res (st * stop) :=
       cont_loop loop_fuel (mk_st (fst r) (snd r) InProgress (s_detached s) (s_external s) (s_fate s))
   | InProgress =>
       r <- step_over_breakpoint (r_bps (s_reg s)) (s_proc s) ;;
-      cont_loop loop_fuel (with_bps s (fst r) (snd r))
+      if snd r then Ok (exit_by_step s (fst (fst r)) (snd (fst r)), CExitErr)
+      else cont_loop loop_fuel (with_bps s (fst (fst r)) (snd (fst r)))
   | Exited => Err E_NOT_STARTED
   end.
 
 (* restart_debugee, mod.rs:702 *)
-Definition restart_debugee (s : st) : res (st * stop) :=
+Definition restart_debugee (s : st) : res (st * cres) :=
   let x := match s_status s with
            | InProgress => disable_all (s_reg s) (s_proc s)
            | _ => (s_reg s, s_proc s)
@@ -466,15 +494,15 @@ Definition add_at_addr (s : st) (a : N) : st * outcome :=
 Definition res_outcome {A} (r : res A) (f : A -> outcome) : outcome :=
   match r with Ok a => f a | Err c => OErr c | Panic c => OPanic c | OutOfFuel => OFuel end.
 
-Definition lift_stop (s : st) (r : res (st * stop)) : st * outcome :=
+Definition lift_stop (s : st) (r : res (st * cres)) : st * outcome :=
   match r with
-  | Ok x => (fst x, OStop (snd x))
+  | Ok x => (fst x, match snd x with CStop y => OStop y | CExitErr => OExit exit_code | CExitRaw => OErr E_EXIT end)
   | Err c => (s, OErr c)
   | Panic c => (s, OPanic c)
   | OutOfFuel => (s, OFuel)
   end.
 
-(* single_step_instruction, step.rs:188 *)
+(* single_step_instruction, step.rs:201 *)
 Definition stepi (s : st) : st * outcome :=
   match s_status s with
   | InProgress =>
@@ -482,11 +510,13 @@ Definition stepi (s : st) : st * outcome :=
       let p := s_proc s in
       match find_bp (p_pc p) bps with
       | Some _ => match step_over_breakpoint bps p with
-                  | Ok r => (with_bps s (fst r) (snd r), ODone)
+                  | Ok r => if snd r then (exit_by_step s (fst (fst r)) (snd (fst r)), OExit exit_code)
+                            else (with_bps s (fst (fst r)) (snd (fst r)), ODone)
                   | e => (s, res_outcome e (fun _ => ODone))
                   end
       | None => match single_step fuel0 (p_pc p) p with
-                | Ok p' => (with_bps s bps p', ODone)
+                | Ok x => if snd x then (exit_by_step s bps (fst x), OExit exit_code)
+                          else (with_bps s bps (fst x), ODone)
                 | e => (s, res_outcome e (fun _ => ODone))
                 end
       end
@@ -529,15 +559,20 @@ Definition step_temps (s : st) (ts : list N) (inject : option nat) : st * outcom
       | None =>
           match continue_execution s1 with
           | Ok x =>
-              if match inject with Some k => Nat.eqb k (length todo) | None => false end
-              then (fst x, OErr E_INJECTED)                (* continue_execution()? failed (hook / ptrace) *)
-              else
-                let y := remove_temps todo (s_reg (fst x)) (s_proc (fst x)) in
-                let s2 := with_rp (fst x) (fst y) (snd y) in
-                match s_status s2 with
-                | Exited => (s2, OErr E_PROCESS_EXIT)      (* step.rs:416 ProcessExit(0) *)
-                | _ => (s2, OStop (snd x))
-                end
+              match snd x with
+              | CExitErr => (fst x, OExit exit_code)       (* `?`: early return; the exit handling dropped the temporaries *)
+              | CExitRaw => (fst x, OErr E_EXIT)           (* `?`: early return *)
+              | CStop y =>
+                  if match inject with Some k => Nat.eqb k (length todo) | None => false end
+                  then (fst x, OErr E_INJECTED)            (* continue_execution()? failed (hook / ptrace) *)
+                  else
+                    let z := remove_temps todo (s_reg (fst x)) (s_proc (fst x)) in
+                    let s2 := with_rp (fst x) (fst z) (snd z) in
+                    match s_status s2 with
+                    | Exited => (s2, OErr E_PROCESS_EXIT)  (* step.rs ProcessExit(0) *)
+                    | _ => (s2, OStop y)
+                    end
+              end
           | Err c => (s1, OErr c)
           | Panic c => (s1, OPanic c)
           | OutOfFuel => (s1, OFuel)
@@ -563,7 +598,7 @@ Definition drop (s : st) : st :=
     mk_st (fst x) (snd x) (s_status s) (s_detached s) (s_external s) f
   else
     match s_status s with
-    | Unload => mk_st (s_reg s) (s_proc s) Unload (s_detached s) false FReaped      (* SIGKILL + waitpid *)
+    | Unload => mk_st (s_reg s) (s_proc s) Unload (s_detached s) false FReaped      (* SIGKILL, then waitpid until Exited/Signaled (repair 74c6c3e) *)
     | InProgress =>
         let x := disable_all (s_reg s) (s_proc s) in
         mk_st (fst x) (snd x) InProgress (s_detached s) false FReaped                 (* detach, SIGKILL, reap *)
@@ -715,7 +750,7 @@ Fixpoint abs_run (a : abs) (ops : list op) : list outcome :=
 End Ideal.
 
 Definition only_stops (l : list outcome) : list stop :=
-  filter_map (fun o => match o with OStop s => Some s | _ => None end) l.
+  filter_map (fun o => match o with OStop s => Some s | OExit c => Some (StopExit c) | _ => None end) l.
 
 (* ---------- correspondence cases ---------- *)
 Definition stop_eqb (x y : stop) : bool :=
